@@ -173,8 +173,17 @@ def sideTrunc (root : Float) : Nat := root.toUInt64.toNat
 def sideF (total d : Nat) : Nat :=
   sideTrunc (Float.pow (Float.ofNat total) (1.0 / Float.ofNat d))
 
+/-- `int(round(total ** (1 / d)))` (repaired code) for *every* number of results, perfect power or not: the
+integer nearest to the real `d`-th root, computed exactly (`⌊2·total^(1/d)⌋ = iroot (2^d·total) d`; the root
+is never half way between two integers because `(2s+1)^d` is odd). Equal to `iroot` on perfect powers. -/
+def sideRound (total d : Nat) : Nat := (iroot (2 ^ d * total) d + 1) / 2
+
 def sideOf (cfg : Cfg) (total d : Nat) : Nat :=
-  if cfg.shapeExact then iroot total d else sideF total d
+  if cfg.shapeExact then sideRound total d else sideF total d
+
+/-- does `GridList.native` (`numpy.reshape(values, shape)`) succeed for a per-cell list: only when the
+reported shape accounts for every entry -/
+def nativeOk (cfg : Cfg) (total d : Nat) : Bool := prod (List.replicate d (sideOf cfg total d)) == total
 
 /-- `GridSearchResult.shape` -/
 def shapeOf (cfg : Cfg) (total d : Nat) : List Nat := List.replicate d (sideOf cfg total d)
